@@ -59,7 +59,7 @@ func (Prop) Size(tier string) int {
 	if tier == "thorough" {
 		return 150000
 	}
-	return 3000
+	return 2500
 }
 func (Prop) FreshProcessShrink() bool { return true }
 
@@ -152,7 +152,8 @@ func (Prop) Generate(seed uint64, tier string) *core.Plan {
 	p := &core.Plan{Property: "C16", Version: core.HarnessVersion, Seed: seed, Tier: tier,
 		ChooserSeed: simrt.Mix(seed, 16),
 		Rates: simrt.Rates{
-			Switch:  []float64{0, 0.001, 0.01, 0.1, 0.6}[r.Intn(5)],
+			// (yield points are at every statement in the race build, so even 0.15 means a switch every ~7 statements)
+			Switch:  []float64{0, 0.0005, 0.003, 0.02, 0.15}[r.Intn(5)],
 			Recycle: []float64{0.5, 0.9, 1}[r.Intn(3)],
 			Purge:   []float64{0, 0.02}[r.Intn(2)],
 			Shuffle: []float64{0, 0.5}[r.Intn(2)],
